@@ -18,6 +18,7 @@ func init() {
 			"R1": "closed writer set and value shapes of TableState.CurrentActionEndAt; extension returns the stored value; no address escape",
 			"R2": "clear wiring: hook registered before Start; hand stores it; round-closed handler invokes it before Next; continue step resets to 0 on every path",
 			"R4": "the engine's hand-state hook (registered before Start) calls the deadline updater with each state and its event, for every event but game-closed",
+			"R5": "one delivery per state: the only send on the hand's state channel is in the hand's update function and carries the state that function has just stored as current — a state handed to the engine's hook twice re-arms the deadline of a turn that is already running",
 			"R3": "turn predicate atoms: the turn deadline is stored only under status playing ∧ round-started event ∧ betting round ∧ the current player has allowed actions ∧ has not acted (pokerface's Acted flag)",
 		},
 		Assumptions: []string{"time.Now/Add/Unix semantics"},
@@ -195,6 +196,33 @@ func checkC15(c *Ctx) {
 	c.Check(shapes["turn"] >= 1 && shapes["extend"] >= 1 && shapes["clear"] >= 2, "R1", "all-shapes-present", "-", fmt.Sprintf("turn=%d extend=%d clear=%d", shapes["turn"], shapes["extend"], shapes["clear"]), fmt.Sprintf("a deadline writer is missing (turn=%d extend=%d clear=%d)", shapes["turn"], shapes["extend"], shapes["clear"]))
 	esc := p.addrEscapes("TableState", "CurrentActionEndAt")
 	c.Check(len(esc) == 0, "R1", "no-address-escape", "-", "address used only by loads/stores", "the deadline's address escapes")
+
+	// R5 one delivery per state
+	{
+		nSend := 0
+		for _, f := range p.Funcs {
+			if !inModule(p, f) {
+				continue
+			}
+			for _, b := range f.Blocks {
+				for _, in := range b.Instrs {
+					snd, isSend := in.(*ssa.Send)
+					if !isSend || !p.Sym(snd.Chan).Strip().IsField("game", "incomingStates") {
+						continue
+					}
+					nSend++
+					fresh := false
+					for _, ss := range p.Stores([]*ssa.Function{f}) {
+						if ss.Owner == "game" && ss.Field == "gs" && ss.ValV == snd.X && Dominates(ss.Instr, in) {
+							fresh = true
+						}
+					}
+					c.Check(fresh, "R5", "state-feed:"+FuncName(f), p.InstrPos(in), "sends the state it has just stored as the hand's current state", FuncName(f)+" puts "+p.Sym(snd.X).Strip().String()+" on the hand's state channel without having stored it as the new current state: a state that was delivered before is delivered again, and the engine's hook treats a round-started state with an unmoved player as a fresh request (the running turn's deadline and any extension are overwritten)")
+				}
+			}
+		}
+		c.Min("R5", "sends on the hand's state channel", nSend, 1)
+	}
 
 	// R2 wiring
 	et := p.singleImpl("", "TableEngine")
